@@ -157,6 +157,7 @@ theorem dict_push_row (ext : Ext) {p : String} {idx vals : B} {index : List Stri
     · rename_i i hi
       obtain ⟨idx', h1, h2⟩ := (bind_ok _ _ _).1 h
       cases h2
+      rw [ctx_eq_ok] at h1
       have hk := intLeaf_push ext hil hw'.1 h1
       rw [dec_dictionary, dec_dictionary, hk, List.map_append] at hd
       have := last_of_append_eq hd (by simp)
@@ -167,6 +168,7 @@ theorem dict_push_row (ext : Ext) {p : String} {idx vals : B} {index : List Stri
     · obtain ⟨vals', h1, h2⟩ := (bind_ok _ _ _).1 h
       obtain ⟨idx', h3, h4⟩ := (bind_ok _ _ _).1 h2
       cases h4
+      rw [ctx_eq_ok] at h1 h3
       have hk := intLeaf_push ext hil hw'.1 h3
       have hv := pushScalar_utf8_str ext hw'.2.1 hu h1
       rw [dec_dictionary, dec_dictionary, hk, List.map_append] at hd
@@ -189,6 +191,7 @@ theorem dict_push_refused (ext : Ext) {p : String} {idx vals : B} {index : List 
   split at h
   · simp only [indexOfName, indexOfName.go] at h
     obtain ⟨vals', h1, _⟩ := (bind_ok _ _ _).1 h
+    rw [ctx_eq_ok] at h1
     exact pushScalar_refusesStr ext hr h1
   · simp [notSupported, fail] at h
 
